@@ -1,7 +1,8 @@
 """C10 - Unauthenticated or forged v3 replies are never accepted.
 
 Generator / enumeration: otherwise-matching replies (right user, engine id, msgID, request-id) x MAC in {valid, all-zero,
-random, one bit flipped, field empty, wrong length} x flags in {auth, noAuth} x {priv as configured, sent in clear although
+random, one bit flipped, field absent/empty (with either flag), wrong length (6 zero octets; 1/4/11/13/24-octet prefixes of a
+correctly computed HMAC)} x flags in {auth, noAuth} x {priv as configured, sent in clear although
 privacy is configured} x body in {GetResponse, Report} x {MD5, SHA-1} x {none, DES, AES} x op in {get, get_many, getnext,
 getbulk}; each forged reply is *followed by* the genuine one.  The class grid is enumerated completely; random payloads,
 key types, users and engine ids vary around it.
@@ -16,7 +17,7 @@ from vlib import core, drivers, gen
 from vlib import refber as rb
 
 LEVEL = "fault_enumeration"
-MACS = ["valid", "zero", "random", "bitflip", "absent", "short"]
+MACS = ["valid", "zero", "random", "bitflip", "absent", "short", "empty", "trunc1", "trunc4", "trunc11", "trunc13", "trunc24"]
 OPS = ["get", "get_many", "getnext1", "getbulk1"]
 CALLS = {"get": ("get", "1.3.6.1.2.1.1.3.0"), "get_many": ("get_many", ["1.3.6.1.2.1.1.3.0", "1.3.6.1.2.1.1.5.0"]),
          "getnext1": ("getnext1", "1.3.6.1.2.1.2"), "getbulk1": ("getbulk1", "1.3.6.1.2.1.2", 4)}
@@ -28,6 +29,10 @@ def forged_reply(cfg, req, cl, value):
     name = (req["varbinds"][0][0] if req["varbinds"] else (1, 3)) + (1,)
     vbs = [rb.varbind(rb.enc_oid(name), rb.enc_int(value))]
     kw = {"mac": mac}
+    if mac == "empty":
+        kw = {"auth_params": b""}  # field empty, auth flag as chosen
+    elif mac.startswith("trunc"):
+        kw = {"mac": ("trunc", int(mac[5:]))}
     enc = bool(cfg.priv) and not clear
     kw["encrypt"] = enc
     flags = (1 if authflag else 0) | (2 if enc else 0)
